@@ -54,12 +54,13 @@ func reuseUnixSocket(network, addr string) (any, error) {
 		// ours would otherwise keep the socket open after its last user closed it
 		defer socketFile.Close()
 
-		// use copied fd to make new Listener or PacketConn, then replace
-		// it in the map so that future copies always come from the most
-		// recent fd (as the previous ones will be closed, and we'd get
-		// "use of closed network connection" errors) -- note that we
-		// preserve the *pointer* to the counter (not just the value) so
-		// that all socket wrappers will refer to the same value
+		// use copied fd to make new Listener or PacketConn; the descriptor in
+		// the map is ours alone (see keepUnixSocket), so it is open for as long
+		// as anybody uses the socket, in whichever order the listeners and
+		// conns we hand out are closed (the most recent one is closed first
+		// when the config it belongs to is rejected after it has started) --
+		// note that we preserve the *pointer* to the counter (not just the
+		// value) so that all socket wrappers will refer to the same value
 		switch unixSocket := socket.(type) {
 		case *unixListener:
 			ln, err := net.FileListener(socketFile)
@@ -67,7 +68,7 @@ func reuseUnixSocket(network, addr string) (any, error) {
 				return nil, err
 			}
 			atomic.AddInt32(unixSocket.count, 1)
-			unixSockets[socketKey] = &unixListener{ln.(*net.UnixListener), socketKey, unixSocket.count}
+			return &unixListener{ln.(*net.UnixListener), socketKey, unixSocket.count}, nil
 
 		case *unixConn:
 			pc, err := net.FilePacketConn(socketFile)
@@ -75,10 +76,10 @@ func reuseUnixSocket(network, addr string) (any, error) {
 				return nil, err
 			}
 			atomic.AddInt32(unixSocket.count, 1)
-			unixSockets[socketKey] = &unixConn{pc.(*net.UnixConn), socketKey, unixSocket.count}
+			return &unixConn{pc.(*net.UnixConn), socketKey, unixSocket.count}, nil
 		}
 
-		return unixSockets[socketKey], nil
+		return nil, fmt.Errorf("unexpected type of unix socket %s: %T", socketKey, socket)
 	}
 
 	// from what I can tell after some quick research, it's quite common for programs to
@@ -169,8 +170,12 @@ func listenReusable(ctx context.Context, lnKey string, network, address string, 
 			// TODO: Not 100% sure this is necessary, but we do this for net.UnixListener, so...
 			if unix, ok := ln.(*net.UnixConn); ok {
 				one := int32(1)
+				if err := keepUnixSocket(lnKey, unix, &one); err != nil {
+					_, _ = listenerPool.Delete(lnKey)
+					unix.Close()
+					return nil, err
+				}
 				ln = &unixConn{unix, lnKey, &one}
-				unixSockets[lnKey] = ln.(*unixConn)
 			}
 		}
 		// lightly wrap the connection so that when it is closed,
@@ -185,8 +190,12 @@ func listenReusable(ctx context.Context, lnKey string, network, address string, 
 			if unix, ok := ln.(*net.UnixListener); ok {
 				unix.SetUnlinkOnClose(false)
 				one := int32(1)
+				if err := keepUnixSocket(lnKey, unix, &one); err != nil {
+					_, _ = listenerPool.Delete(lnKey)
+					unix.Close()
+					return nil, err
+				}
 				ln = &unixListener{unix, lnKey, &one}
-				unixSockets[lnKey] = ln.(*unixListener)
 			}
 		}
 		// lightly wrap the listener so that when it is closed,
@@ -249,13 +258,48 @@ func (uc *unixConn) Close() error {
 	return uc.UnixConn.Close()
 }
 
-// unlinkUnixSocket forgets the unix socket that its last user has just closed and
-// removes its file (abstract sockets have none). Both happen under unixSocketsMu,
-// which Listen holds while it binds, so that the file of a socket that is being
-// bound anew at the same path is not the one that gets removed.
+// keepUnixSocket remembers, in unixSockets, a descriptor of our own for the unix
+// socket that was just bound. reuseUnixSocket duplicates from it; it is never
+// handed out, and closed only when the last user of the socket closes
+// (unlinkUnixSocket). count is the usage counter all users of the socket share.
+func keepUnixSocket(lnKey string, socket interface{ File() (*os.File, error) }, count *int32) error {
+	socketFile, err := socket.File() // does dup() deep down
+	if err != nil {
+		return err
+	}
+	defer socketFile.Close() // FileListener/FilePacketConn copy it once more
+
+	switch socket.(type) {
+	case *net.UnixListener:
+		ln, err := net.FileListener(socketFile)
+		if err != nil {
+			return err
+		}
+		unixSockets[lnKey] = &unixListener{ln.(*net.UnixListener), lnKey, count}
+	case *net.UnixConn:
+		pc, err := net.FilePacketConn(socketFile)
+		if err != nil {
+			return err
+		}
+		unixSockets[lnKey] = &unixConn{pc.(*net.UnixConn), lnKey, count}
+	}
+	return nil
+}
+
+// unlinkUnixSocket forgets the unix socket that its last user has just closed,
+// closes the descriptor we kept of it and removes its file (abstract sockets have
+// none). All happen under unixSocketsMu, which Listen holds while it binds, so
+// that the file of a socket that is being bound anew at the same path is not the
+// one that gets removed.
 func unlinkUnixSocket(mapKey, name string) {
 	unixSocketsMu.Lock()
 	defer unixSocketsMu.Unlock()
+	switch kept := unixSockets[mapKey].(type) {
+	case *unixListener:
+		_ = kept.UnixListener.Close()
+	case *unixConn:
+		_ = kept.UnixConn.Close()
+	}
 	delete(unixSockets, mapKey)
 	if name != "" && name[0] != '@' {
 		_ = syscall.Unlink(name)
